@@ -358,13 +358,22 @@ func readerBufferDiscipline(c *Ctx, rule string, pkgs []string) {
 			n++
 			call := in.(*ssa.Call)
 			buf := cc.Args[0]
-			mk, ok := buf.(*ssa.MakeSlice)
 			label := funcName(fn) + ":Read"
-			if !ok {
-				c.Ok(rule, label, in.Pos(), "buffer is not a locally made slice (not tracked)")
+			var mk ssa.Value
+			var mkBlock *ssa.BasicBlock
+			switch b := buf.(type) {
+			case *ssa.MakeSlice:
+				mk, mkBlock = b, b.Block()
+			case *ssa.Slice:
+				if al, ok := b.X.(*ssa.Alloc); ok && b.Low == nil {
+					mk, mkBlock = b, al.Block()
+				}
+			}
+			if mk == nil {
+				c.Fail(rule, label, in.Pos(), "the read buffer is not a slice made in this function: its reuse across reads cannot be tracked")
 				return
 			}
-			reused := !inCycle(mk.Block()) && inCycle(call.Block())
+			reused := !inCycle(mkBlock) && inCycle(call.Block())
 			if !reused {
 				c.Ok(rule, label, in.Pos(), "fresh buffer per read: stale entries cannot be seen")
 				return
